@@ -83,7 +83,19 @@ func genC05(r *vh.Rand, idx int) c05Spec {
 	// at least one Close, possibly from both sides, possibly several callers
 	for _, side := range []string{"client", "server"} {
 		if r.Chance(3, 5) {
-			s.Ops = append(s.Ops, c05Op{Kind: "close", Side: side, At: r.Intn(horizon), K: r.Range(1, 3)})
+			at := r.Intn(horizon)
+			s.Ops = append(s.Ops, c05Op{Kind: "close", Side: side, At: at, K: r.Range(1, 3)})
+			if s.Version == "" && side == "client" {
+				// 2026-07-28: resource subscriptions are listen streams; some start at the very instant Close begins
+				m := r.Range(1, 3)
+				if r.Chance(1, 2) {
+					m = r.Range(8, 32) // a burst: the window between Close's sweep and the connection refusing calls is narrow
+				}
+				for k := 0; k < m; k++ {
+					n++
+					s.Ops = append(s.Ops, c05Op{Kind: "subscribe", Side: "client", At: []int{at, at, at, max(0, at-1), r.Intn(horizon)}[r.Intn(5)], N: n})
+				}
+			}
 		}
 	}
 	if r.Chance(1, 8) {
@@ -190,7 +202,15 @@ func runC05(c *vh.Case, spec c05Spec) {
 		copts.ToolListChangedHandler = func(context.Context, *mcp.ToolListChangedRequest) {}
 		copts.ResourceListChangedHandler = func(context.Context, *mcp.ResourceListChangedRequest) {}
 	}
+	if sopts == nil {
+		sopts = &mcp.ServerOptions{}
+	}
+	sopts.SubscribeHandler = func(context.Context, *mcp.SubscribeRequest) error { return nil }
+	sopts.UnsubscribeHandler = func(context.Context, *mcp.UnsubscribeRequest) error { return nil }
 	server := mcp.NewServer(&mcp.Implementation{Name: "s", Version: "1"}, sopts)
+	server.AddResource(&mcp.Resource{URI: "file:///r", Name: "r"}, func(context.Context, *mcp.ReadResourceRequest) (*mcp.ReadResourceResult, error) {
+		return &mcp.ReadResourceResult{}, nil
+	})
 	server.AddTool(&mcp.Tool{Name: "work", InputSchema: json.RawMessage(`{"type":"object"}`)}, func(ctx context.Context, req *mcp.CallToolRequest) (*mcp.CallToolResult, error) {
 		var a struct{ Nonce int }
 		json.Unmarshal(req.Params.Arguments, &a)
@@ -327,6 +347,11 @@ func runC05(c *vh.Case, spec c05Spec) {
 					err = ss.NotifyProgress(ctx, p)
 				}
 				log.Add("notify-return", "side", op.Side, "n", op.N, "outcome", outcome(err))
+			})
+		case "subscribe":
+			run(op.At, func() {
+				err := cs.Subscribe(ctx, &mcp.SubscribeParams{URI: fmt.Sprintf("file:///r%d", op.N)})
+				log.Add("subscribe-return", "n", op.N, "outcome", outcome(err))
 			})
 		case "close":
 			for i := 0; i < op.K; i++ {
